@@ -342,7 +342,47 @@ def check(ctx):
                                           "segment": [json.loads(x) for x in seg]}})
     cov = evidence(mc, gstats, summ, scs, lines, nseg, nev)
     cov["not_run_without_proxy"] = skipped
-    return conclude(ctx, "model_checking", cov, violations, ASSUME)
+    # "protocols before the manager": not observable on real networks (inboxes hold 4096 events), decided by the
+    # blocked-call probe on the real TransportService / ProtocolSet (same harness and monitor as C08)
+    pv, pcov = ordering_probe(ctx)
+    violations += pv
+    cov["ordering_probe"] = pcov
+    return conclude(ctx, "model_checking", cov, violations, ASSUME + [
+        "the order 'protocols before the manager' is judged by the blocked-call probe: one protocol's inbox is filled so that "
+        "report_connection_closed suspends on it; while it is suspended the manager's channel must be empty (unit-level, "
+        "real TransportService + ProtocolSet through the ServiceHarness; SvcLife monitor)"])
+
+
+def ordering_probe(ctx):
+    """The hand-written connection-life-cycle histories of C08 (they contain the clogged-inbox closures) plus seeded
+    random histories, executed on the real TransportService/ProtocolSet; only the ordering rule is reported here."""
+    import c08
+    write_jsonl(ctx.path("probe_behs.jsonl"), c08.FIXED)
+    cargo_build(ctx, ["svc"])
+    summ, _ = harness(ctx, "svc", ["--behaviours", ctx.path("probe_behs.jsonl"), "--random", 200 if ctx.quick() else 1500, "--len", 70,
+                                   "--seed", ctx.seed, "--out", ctx.path("probe.ndjson")], timeout=1200)
+    lines = read_lines(ctx.path("probe.ndjson"))
+    nseg, nev, rejects = validate_all(ctx, "SvcLifeTrace.tla", "SvcLifeTrace.cfg", lines, mode="prop", tag="o")
+    probes = blocked = 0
+    for ln in lines:
+        if '"a":"close"' not in ln:
+            continue
+        d = json.loads(ln)
+        if d.get("e") == "step" and d["s"]["a"] == "close" and d["s"].get("clog", -1) >= 0:
+            probes += 1
+            blocked += 1 if d["ret"].get("blocked") else 0
+    viol = []
+    for r in rejects:
+        seg, idx = r
+        if not r.reason.startswith("manager told"):
+            continue        # every other rule of that monitor belongs to C08
+        viol.append({"sig": "manager-told-of-the-closure-before-the-protocols", "what": "%s at %s" % (r.reason, seg[idx - 1][:400]),
+                     "replay_obj": {"property": "C07", "probe": True, "reason": r.reason, "signature": "manager-told-of-the-closure-before-the-protocols",
+                                    "segment": [json.loads(x) for x in seg[:idx]]}})
+    if (probes == 0 or blocked == 0) and not viol:
+        raise ToolError("coverage: the protocols-before-manager probe never blocked report_connection_closed")
+    log("ORDER PROBE: %d closures with a clogged protocol inbox, %d suspended the report, manager told early in %d" % (probes, blocked, len(viol)))
+    return viol, {"executions": nseg, "events": nev, "probes": probes, "probes_effective": blocked}
 
 
 def evidence(mc, gstats, summ, scs, lines, nseg, nev):
@@ -390,6 +430,10 @@ def replay(ctx, path):
     bit-reproducible over real sockets; the scenario is repeated 8 times)"""
     obj = json.load(open(path))
     seg = [json.dumps(x, separators=(",", ":")) for x in obj["segment"]]
+    if obj.get("probe"):
+        _, _, rej = validate_all(ctx, "SvcLifeTrace.tla", "SvcLifeTrace.cfg", seg, mode="prop")
+        log("replay (recorded ordering-probe history): %s" % ("rejected: %s" % rej[0].reason if rej else "accepted"))
+        return 1 if rej else 0
     _, _, rej = validate_all(ctx, "ConnLifeNetTrace.tla", "ConnLifeNetTrace.cfg", seg)
     log("replay recorded segment: %s" % ("; ".join("line %d: %s" % (r[1], r.reason) for r in rej) if rej else "accepted"))
     rc = 1 if rej else 0
